@@ -26,7 +26,7 @@ from types import SimpleNamespace
 import numpy as np
 
 PROP = 'C12'
-TARGETS = ['T6', 'T7a', 'T7b', 'T7c', 'T7d', 'T7e', 'T7f']
+TARGETS = ['T6', 'T7a', 'T7b', 'T7c', 'T7d', 'T7e', 'T7f', 'T7g', 'T7h', 'T7i']
 LEAN_MODULES = ['HdVerif.Props.C12']
 MODEL_MODULES = ['HdVerif.Model.TilingJson']
 NAMESPACE = 'HdVerif.C12'
@@ -230,6 +230,18 @@ def _sizes(ctx, reqs, pending):
                 variants.append(('prefix-minus-last-row', g[:len(g) - nC_]))
             if r.random() < 0.5:
                 variants.append(('prefix-random', g[:r.randint(1, len(g) - 1)]))
+            # lists of exactly the right length that list one tile TWICE and omit another (sorted order kept), and near misses
+            i_ = r.randrange(1, len(g))
+            variants.append(('duplicate-replaces-omitted', g[:i_] + [g[i_ - 1]] + g[i_ + 1:]))
+            variants.append(('first-duplicated', [g[0], g[0]] + g[2:]))
+            variants.append(('last-duplicated', g[:-2] + [g[-1], g[-1]]))
+            j_ = r.randrange(len(g) - 1)
+            variants.append(('neighbours-swapped', g[:j_] + [g[j_ + 1], g[j_]] + g[j_ + 2:]))
+            k_ = r.randrange(len(g))
+            axis = r.randrange(2)
+            off = list(g[k_])
+            off[axis] += r.choice([1, -1]) if off[axis] > 1 else 1
+            variants.append(('off-grid-by-one', g[:k_] + [tuple(off)] + g[k_ + 1:]))
             if r.random() < 0.2:
                 variants.append(('suffix', g[1:]))
                 variants.append(('column-major', sorted(g, key=lambda x: (x[1], x[0]))))
@@ -455,6 +467,10 @@ def _datasets(ctx, reqs, pending):
                     ctx.fail(case, {'helper': 'iter_tiled_full_frame_data', 'what': 'position is not the transform of the offset', 'item': list(x)},
                              site='iter_tiled_full_frame_data')
                     break
+        if st == 'ok' and kind != 'labelmap':
+            # the channel numbers themselves (model: channelNumbers n over the regenerated ranges)
+            reqs.append(('channelNumbers', {'n': paths}))
+            pending.append((case, 'channel numbers of iter_tiled_full_frame_data', ('ok', sorted(set(x[0] for x in val))), 'plain'))
         if exact:
             reqs.append(('iterTiledFull', {'channels': channels, 'planes': planes, 'tr': tr, 'tc': tc, 'R': R, 'C': C,
                                            'geo': geo_json(org, ori, sp, org[2]), 'sbs': frac(s)}))
